@@ -7,6 +7,7 @@ import (
 	"math/rand"
 	"strings"
 	"sync"
+	"sync/atomic"
 	"time"
 
 	res "github.com/jirenius/go-res"
@@ -71,6 +72,7 @@ type c08Env struct {
 	outcome  string          // dynamic outcome for the next apply call
 	nlisten  map[string]int  // listeners per pattern key (m, c, u, sub.m)
 	applyRet interface{}     // what the apply handler returned last
+	nfail    int64           // failing apply calls so far (selects the error returned)
 }
 
 func (e *c08Env) add(kind, detail string) {
@@ -80,6 +82,14 @@ func (e *c08Env) add(kind, detail string) {
 }
 
 var errApply = errors.New("apply failed")
+
+// errApplyPool: what a failing apply handler may return - also the library's own
+// predefined errors, which are failures like any other.
+var errApplyPool = []error{errApply, res.ErrNotFound, res.ErrTimeout, res.ErrAccessDenied, &res.Error{Code: "system.notFound", Message: "gone"}, res.ErrInternalError, errApply}
+
+func (e *c08Env) applyErr() error {
+	return errApplyPool[int(atomic.AddInt64(&e.nfail, 1))%len(errApplyPool)]
+}
 
 // malformed event names: every one must be refused (nothing published, no listener)
 var c08BadNames = []string{"a.b", "", "a b", " a", "a ", "a*b", "*", "a>b", ">", "a?b", "\ta", "a\n", "a\x7fb", "é", "a\x00", ".", "a."}
@@ -111,7 +121,7 @@ func (e *c08Env) configure(s *res.Service, r *rand.Rand) {
 				e.add("apply", "change:"+rs.ResourceName()+":"+jsonStr(ch))
 				switch e.outcome {
 				case "fail":
-					return nil, errApply
+					return nil, e.applyErr()
 				case "nochange":
 					return map[string]interface{}{}, nil
 				}
@@ -124,7 +134,7 @@ func (e *c08Env) configure(s *res.Service, r *rand.Rand) {
 			o = append(o, res.ApplyAdd(func(rs res.Resource, v interface{}, idx int) error {
 				e.add("apply", fmt.Sprintf("add:%s:%s@%d", rs.ResourceName(), jsonStr(v), idx))
 				if e.outcome == "fail" {
-					return errApply
+					return e.applyErr()
 				}
 				return nil
 			}))
@@ -133,7 +143,7 @@ func (e *c08Env) configure(s *res.Service, r *rand.Rand) {
 			o = append(o, res.ApplyRemove(func(rs res.Resource, idx int) (interface{}, error) {
 				e.add("apply", fmt.Sprintf("remove:%s@%d", rs.ResourceName(), idx))
 				if e.outcome == "fail" {
-					return nil, errApply
+					return nil, e.applyErr()
 				}
 				e.applyRet = "removed-value"
 				return "removed-value", nil
@@ -143,7 +153,7 @@ func (e *c08Env) configure(s *res.Service, r *rand.Rand) {
 			o = append(o, res.ApplyCreate(func(rs res.Resource, data interface{}) error {
 				e.add("apply", "create:"+rs.ResourceName()+":"+jsonStr(data))
 				if e.outcome == "fail" {
-					return errApply
+					return e.applyErr()
 				}
 				return nil
 			}))
@@ -152,7 +162,7 @@ func (e *c08Env) configure(s *res.Service, r *rand.Rand) {
 			o = append(o, res.ApplyDelete(func(rs res.Resource) (interface{}, error) {
 				e.add("apply", "delete:"+rs.ResourceName())
 				if e.outcome == "fail" {
-					return nil, errApply
+					return nil, e.applyErr()
 				}
 				e.applyRet = map[string]interface{}{"deleted": "data"}
 				return e.applyRet, nil
